@@ -21,10 +21,10 @@
 (***************************************************************************)
 EXTENDS Integers, Sequences, FiniteSets, TLC
 
-Range(f) == {f[x] : x \in DOMAIN f}
+Rng(f) == {f[x] : x \in DOMAIN f}
 
-Tasks(s) == Range(s.tasks)
-Ops(s) == Range(s.ops)
+Tasks(s) == Rng(s.tasks)
+Ops(s) == Rng(s.ops)
 TaskIds(s) == {t.id : t \in Tasks(s)}
 OpNames(s) == {o.name : o \in Ops(s)}
 TaskOf(s, id) == CHOOSE t \in Tasks(s) : t.id = id
@@ -34,8 +34,8 @@ HasOp(s, n) == \E o \in Ops(s) : o.name = n
 
 QIdx(s) == 1 .. Len(s.queues)
 \* <<queue index (1-based), worker record>>
-Workers(s) == UNION {{<<qi, w>> : w \in Range(s.queues[qi].workers)} : qi \in QIdx(s)}
-WorkerIds(s) == {<<x[1], x[2].id>> : x \in Workers(s)}
+WorkersOf(s) == UNION {{<<qi, w>> : w \in Rng(s.queues[qi].workers)} : qi \in QIdx(s)}
+WorkerIds(s) == {<<x[1], x[2].id>> : x \in WorkersOf(s)}
 
 \* Every place an operation name is stored in some invocation's queue:
 \* <<queue index, invocation path, position>>.
@@ -44,7 +44,7 @@ QueuedAt(s, n) ==
                     k \in {k \in DOMAIN s.queues[qi].invs[ii].qops : s.queues[qi].invs[ii].qops[k] = n}} :
                  ii \in DOMAIN s.queues[qi].invs} : qi \in QIdx(s)}
 
-IsPrefix(p, q) == Len(p) <= Len(q) /\ \A i \in 1 .. Len(p) : p[i] = q[i]
+PathPrefix(p, q) == Len(p) <= Len(q) /\ \A i \in 1 .. Len(p) : p[i] = q[i]
 
 Live(t) == t.stage # "C"
 
@@ -52,15 +52,15 @@ Live(t) == t.stage # "C"
 (* C01: every task is held by exactly one queue or one worker.             *)
 
 C01_TaskOK(s, t) ==
-  LET places == UNION {QueuedAt(s, n) : n \in Range(t.ops)}
-      holders == {x \in Workers(s) : x[2].task = t.id}
+  LET places == UNION {QueuedAt(s, n) : n \in Rng(t.ops)}
+      holders == {x \in WorkersOf(s) : x[2].task = t.id}
   IN
   CASE t.stage = "Q" ->
          /\ t.worker = ""
          /\ holders = {}
-         /\ \A n \in Range(t.ops) : Cardinality(QueuedAt(s, n)) = 1
+         /\ \A n \in Rng(t.ops) : Cardinality(QueuedAt(s, n)) = 1
          /\ Cardinality({p[1] : p \in places}) = 1      \* one platform/size-class queue
-         /\ \A n \in Range(t.ops) : HasOp(s, n) =>
+         /\ \A n \in Rng(t.ops) : HasOp(s, n) =>
               \A p \in QueuedAt(s, n) : p[1] = OpOf(s, n).queue + 1 /\ p[2] = OpOf(s, n).inv
     [] t.stage = "E" ->
          /\ places = {}
@@ -78,12 +78,12 @@ C01_WorkerOK(s, x) ==
 \* Nothing is queued that is not an operation of a queued task.
 C01_NoStrayQueued(s) ==
   \A qi \in QIdx(s) : \A ii \in DOMAIN s.queues[qi].invs :
-    \A n \in Range(s.queues[qi].invs[ii].qops) :
+    \A n \in Rng(s.queues[qi].invs[ii].qops) :
       HasOp(s, n) /\ HasTask(s, OpOf(s, n).task) /\ TaskOf(s, OpOf(s, n).task).stage = "Q"
 
 C01_Inv(s) ==
   /\ \A t \in Tasks(s) : C01_TaskOK(s, t)
-  /\ \A x \in Workers(s) : C01_WorkerOK(s, x)
+  /\ \A x \in WorkersOf(s) : C01_WorkerOK(s, x)
   /\ \A t1, t2 \in Tasks(s) :
        (t1.id # t2.id /\ t1.stage = "E" /\ t2.stage = "E") =>
          ~(t1.worker = t2.worker /\ t1.worker_queue = t2.worker_queue)
@@ -105,7 +105,7 @@ QueueHasQueued(q) == \E ii \in DOMAIN q.invs : Len(q.invs[ii].qops) > 0
 C04_NoIdleWhileQueued(s) ==
   \A qi \in QIdx(s) :
     QueueHasQueued(s.queues[qi]) =>
-      \A w \in Range(s.queues[qi].workers) : ~(w.parked /\ ~w.drained)
+      \A w \in Rng(s.queues[qi].workers) : ~(w.parked /\ ~w.drained)
 
 -----------------------------------------------------------------------------
 (* C05: workers that are drained or terminating hold no *new* task: this   *)
@@ -114,7 +114,7 @@ C04_NoIdleWhileQueued(s) ==
 
 C05_WorkerQueueMatches(s) ==
   \A t \in Tasks(s) : t.stage = "E" =>
-    \A n \in Range(t.ops) : HasOp(s, n) => OpOf(s, n).queue = t.worker_queue
+    \A n \in Rng(t.ops) : HasOp(s, n) => OpOf(s, n).queue = t.worker_queue
 
 -----------------------------------------------------------------------------
 (* C06: nothing is retained once everybody is gone.                        *)
@@ -125,7 +125,7 @@ IsBacklog(s, o) == o.inv = <<"BG">> /\ o.may_exist /\ QueuedAt(s, o.name) # {}
 
 C06_Empty(s) ==
   /\ \A o \in Ops(s) : IsBacklog(s, o)
-  /\ \A t \in Tasks(s) : t.stage = "Q" /\ \A n \in Range(t.ops) : HasOp(s, n)
+  /\ \A t \in Tasks(s) : t.stage = "Q" /\ \A n \in Rng(t.ops) : HasOp(s, n)
   /\ Len(s.dedup) = 0
   /\ Len(s.cleanup) = 0
   /\ \A qi \in QIdx(s) :
@@ -144,8 +144,8 @@ C06_NoOverdue(s) == \A i \in DOMAIN s.cleanup : s.cleanup[i] > s.now
 
 NC_Structure(s) ==
   /\ s.cleanup_ok
-  /\ \A o \in Ops(s) : o.in_task_map /\ HasTask(s, o.task) /\ o.name \in Range(TaskOf(s, o.task).ops)
-  /\ \A t \in Tasks(s) : \A n \in Range(t.ops) : HasOp(s, n) /\ OpOf(s, n).task = t.id
+  /\ \A o \in Ops(s) : o.in_task_map /\ HasTask(s, o.task) /\ o.name \in Rng(TaskOf(s, o.task).ops)
+  /\ \A t \in Tasks(s) : \A n \in Rng(t.ops) : HasOp(s, n) /\ OpOf(s, n).task = t.id
   /\ \A t \in Tasks(s) : (Live(t) /\ ~t.dnc) => t.in_dedup
   /\ \A qi \in QIdx(s) : \A ii \in DOMAIN s.queues[qi].invs :
        LET i == s.queues[qi].invs[ii] IN
